@@ -206,6 +206,11 @@ REPLAY_TIMEOUT_S = int(os.environ.get("VERIF_REPLAY_TIMEOUT", "30"))
 
 
 def _replay_json(replay_fn, o):
+    w = o.get("witness")
+    if isinstance(w, dict) and w.get("kind") == "v.concrete":       # input found by the native search attached to an engine-V contract
+        from .contracts import curvesv
+        bad, expected, observed = curvesv.replay_concrete(w)
+        return bool(bad), jsonable(expected), jsonable(observed)
     bad, expected, observed = replay_fn(o)
     return bool(bad), jsonable(expected), jsonable(observed)
 
